@@ -306,6 +306,7 @@ def run_tool(scn: Scenario, base: Path, faults=None, on_event=None, trace=False,
     am.RepositoryMirror.mirror = mirror
     res = RunResult()
     res.exc = None
+    res.nonterminating = None
     tracer = sim.FsTracer.get()
     try:
         config = Config(cfgfile, str(base))
@@ -324,6 +325,11 @@ def run_tool(scn: Scenario, base: Path, faults=None, on_event=None, trace=False,
             else:
                 res.code = sim.run_virtual(go())
                 res.events = []
+        except sim.RequestBudgetExceeded as e:
+            res.code = 1
+            res.exc = f"does not terminate: {e.path} requested more than {e.n} times"
+            res.nonterminating = e.path
+            res.events = list(tracer.events)
         except SystemExit as e:
             res.code = e.code if isinstance(e.code, int) else 1
             res.events = list(tracer.events)
